@@ -110,7 +110,9 @@ Section LookupModel.
                            sel sels 1 * ldc_transition (ch_alpha ch) (ch_a ch) wires (slot_range poly lu_degree nlu) z prev ])
                        (seq 0 num_sldc) in
           Some ([ sel sels 3 * nth (num_sldc - 1) zx 0;      (* last LDC *)
-                  sel sels 2 * nth 0 zx 0;                   (* initial Sum *)
+                  sel sels 2 * nth (num_sldc - 1) zx 0;      (* initial Sum: the LAST partial polynomial, the one the first
+                                                                table row's transition starts from (repo commit bfbd0f1;
+                                                                before it the code pinned partial polynomial 0) *)
                   sel sels 2 * z_re ]                        (* initial RE *)
                 ++ ends ++ [ sel sels 0 * re_line ] ++ trans)
         end
